@@ -268,6 +268,10 @@ def run(ck, prog):
     ck.doc('C01.R2', 'nothing reachable from the producer entry blocks or calls the exporter', 2)
     ck.doc('C01.R3', 'per-slot consume callback: slot taken exactly once, returns true, taken pointer goes to the exported container, container fresh per batch', 8)
     ck.doc('C01.R4', 'count handed to Consume derives from size() of the same queue / the batch bound', 2)
+    from . import c02
+    for rid, txt, m in (('C02.R1', 'pending flush ticket loaded before every queue snapshot', 4), ('C02.R2', 'publication of the notified counter: value, after Export, after exporter flush', 6),
+                        ('C02.R9', 'publication follows the exporter flush', 2), ('C02.R11', 'a pending ticket is published only when the whole snapshot was consumed', 2)):
+        ck.doc(rid, '(shared rule, see C02) ' + txt, m)
     cg = CallGraph(prog)
     cb = Roles(prog, 'canary::c01::BadBatch', cg=cg)
     with ck.canary('C01.R1'):
@@ -283,6 +287,8 @@ def run(ck, prog):
         rule_r1(ck, prog, roles, producer)
         rule_r2(ck, prog, cg, roles, producer)
         rule_r3_r4(ck, prog, cg, roles)
+        # "nothing is lost between two completed flushes" presupposes that a completed flush means what C02 says
+        c02.rule_r1_r2(ck, prog, cg, roles)
     # prerequisites shared with C11: the structural rules of the queue the processors rely on
     from . import c11
     ck.doc('C11.R1', '(prerequisite, see C11) ownership typestate of CircularBuffer::Add / AtomicUniquePtr', 10)
